@@ -6,7 +6,7 @@
    [o_at], [lo_at]), so it holds whatever the evaluator answers.  The model is tied to the code by the
    correspondence check of harness/c01.py, which fills the oracle tables from the implementation's own evaluator. *)
 From Coq Require Import String Ascii List Bool ZArith Arith.
-From Tally Require Import Lib.Str Engine.StrLib Gen.C01IsExpr Engine.Model Engine.Lemmas C01.Proofs.
+From Tally Require Import Lib.Str Engine.StrLib Gen.C01IsExpr Engine.CaseMap Engine.Model Engine.Lemmas C01.Proofs.
 Import ListNotations.
 Open Scope string_scope.
 
@@ -104,7 +104,7 @@ Theorem c01_legacy_first_match :
     normalize_legacy tf lo_at rules amount date tfs t0 = NRes m c s i ->
     let t := apply_transforms tf tfs t0 in
     let lo := lo_at (t_desc t) (t_fields t) in
-    match find (lcat_match lo (upper (t_desc t)) amount date) rules with
+    match find (lcat_match lo (py_upper (t_desc t)) amount date) rules with
     | Some w => m = l_merchant w /\ c = l_category w /\ s = l_subcategory w
     | None => m = extract_name (t_desc t) /\ c = "Unknown" /\ s = "Unknown"
     end.
@@ -114,17 +114,31 @@ Print Assumptions c01_legacy_first_match.
 Theorem c01_legacy_irrelevance :
   (forall tf lo_at pre r post amount date tfs t0,
      (let t := apply_transforms tf tfs t0 in
-      lout_of (lo_at (t_desc t) (t_fields t)) (upper (t_desc t)) amount date r = LNo) ->
+      lout_of (lo_at (t_desc t) (t_fields t)) (py_upper (t_desc t)) amount date r = LNo) ->
      normalize_legacy tf lo_at (pre ++ r :: post) amount date tfs t0 =
      normalize_legacy tf lo_at (pre ++ post) amount date tfs t0) /\
   (forall tf lo_at rules post amount date tfs t0 m c s i m' c' s' i',
      normalize_legacy tf lo_at rules amount date tfs t0 = NRes m c s i ->
      (let t := apply_transforms tf tfs t0 in
-      find (lcat_match (lo_at (t_desc t) (t_fields t)) (upper (t_desc t)) amount date) rules <> None) ->
+      find (lcat_match (lo_at (t_desc t) (t_fields t)) (py_upper (t_desc t)) amount date) rules <> None) ->
      normalize_legacy tf lo_at (rules ++ post) amount date tfs t0 = NRes m' c' s' i' ->
      m' = m /\ c' = c /\ s' = s).
 Proof. exact (conj normalize_legacy_irrelevance normalize_legacy_later_rules). Qed.
 Print Assumptions c01_legacy_irrelevance.
+
+(* the legacy loop looks at the regex oracle only at ONE subject: Python's description.upper() of the transformed
+   description (Engine/CaseMap.v, table regenerated from CPython each run) — two regex semantics that agree there give
+   the same result.  upper() is not 1:1 (sharp s -> SS, fi ligature -> FI): a case-insensitive search of the raw text is a
+   different condition. *)
+Theorem c01_legacy_subject_is_upper_cased_description :
+  forall tf lo_at1 lo_at2 rules amount date tfs t0,
+    (let t := apply_transforms tf tfs t0 in
+     let lo1 := lo_at1 (t_desc t) (t_fields t) in let lo2 := lo_at2 (t_desc t) (t_fields t) in
+     (forall p, lo_search lo1 p (py_upper (t_desc t)) = lo_search lo2 p (py_upper (t_desc t))) /\
+     (forall r, lo_expr lo1 r = lo_expr lo2 r) /\ (forall r e, lo_dyn lo1 r e = lo_dyn lo2 r e)) ->
+    normalize_legacy tf lo_at1 rules amount date tfs t0 = normalize_legacy tf lo_at2 rules amount date tfs t0.
+Proof. exact legacy_subject_is_upper_cased_description. Qed.
+Print Assumptions c01_legacy_subject_is_upper_cased_description.
 
 (* The property reads a legacy pattern as a regular expression (condition = re.search on the description, and the
    [amount..][date..][month=] modifiers).  The loop first GUESSES whether the pattern "is an expression"
@@ -200,4 +214,18 @@ Example c01_example_legacy :
   NRes "COSTCO" "Small" "Sub" (Some {| i_pattern := Some "COSTCO"; i_source := "user"; i_tags := ["t"]; i_raws := []; i_extra := [] |}) /\
   regex_cond f1_oracle "UBER TRIP" None None f1_rule = true /\ lmatch f1_oracle "UBER TRIP" None None f1_rule = false /\
   is_expression_pattern "(UBER|LYFT)" = true /\ is_expression_pattern "UBER|LYFT" = false.
+Proof. vm_compute. repeat split; reflexivity. Qed.
+
+(* upper-casing that is not 1:1, and a row that matches only the upper-cased text *)
+Definition sb (l : list N) : string := string_of l.
+Definition strasse_oracle : loracle :=
+  {| lo_search := fun p subj => if (String.eqb p "STRASSE" && String.eqb subj "CAFE STRASSE 12")%bool then RSYes else RSNo;
+     lo_expr := fun _ => RSkip; lo_dyn := fun _ _ => LErr |}.
+Example c01_example_upper :
+  py_upper (sb [67; 97; 102; 101; 32; 83; 116; 114; 97; 195; 159; 101; 32; 49; 50]%N) = "CAFE STRASSE 12" /\     (* "Cafe Stra\u00dfe 12" *)
+  py_upper (sb [85; 110; 105; 32; 239; 172; 129; 110; 97; 110; 122]%N) = "UNI FINANZ" /\                      (* "Uni \ufb01nanz" *)
+  py_upper "Costco #12 abc" = "COSTCO #12 ABC" /\
+  normalize_legacy ex_tf (fun _ _ => strasse_oracle) [ex_lrule 0 "STRASSE" "Dining" []] None None []
+                   {| t_desc := sb [67; 97; 102; 101; 32; 83; 116; 114; 97; 195; 159; 101; 32; 49; 50]%N; t_fields := None; t_raws := [] |} =
+  NRes "STRASSE" "Dining" "Sub" (Some {| i_pattern := Some "STRASSE"; i_source := "user"; i_tags := ["t"]; i_raws := []; i_extra := [] |}).
 Proof. vm_compute. repeat split; reflexivity. Qed.
